@@ -144,6 +144,9 @@ def m_rng_fill(I, path, args):
         else:
             dest.base.items[dest.start + i] = t
     crypto_log(I)['rand'].append(terms)
+    obs = I.env.get('rand_observer')
+    if obs is not None:
+        obs(I, terms)
     return Ok(UNIT())
 
 
